@@ -35,6 +35,21 @@ def expected_parts(size, chunk):
     return (size + chunk - 1) // chunk if size else 0
 
 
+def TransferConfig_like(cfg):
+    import copy
+    return copy.copy(cfg)
+
+
+def _payload_size(data):
+    if data is None:
+        return 0
+    if isinstance(data, (bytes, bytearray, memoryview)):
+        return len(data)
+    if isinstance(data, (list, tuple)):
+        return sum(_payload_size(x) for x in data)
+    return 0
+
+
 class World:
     def __init__(self, scenario, chooser, max_steps=None):
         seams.install()
@@ -200,6 +215,7 @@ class World:
                 self.role = role
                 self._work_queue = _RecordingWorkQueue(world, self)
                 self.occ = 0
+                self.pending_bytes = 0
                 self.max_occ = 0
                 self.submitted = 0
                 world.executors.append(self)
@@ -209,7 +225,7 @@ class World:
                 self.submitted += 1
                 if self.occ > self.max_occ:
                     self.max_occ = self.occ
-                world.on_executor_submit(self, fn)
+                nbytes = world.on_executor_submit(self, fn) or 0
                 ex = self
                 tagname = world._tag_enter(fn) if self.role == 'request' and \
                     hasattr(world, 'task_tag') else False
@@ -222,6 +238,7 @@ class World:
                         return fn(*a, **k)
                     finally:
                         ex.occ -= 1
+                        ex.pending_bytes -= nbytes
                         if tagname is not False:
                             world.tag_occ[tagname] -= 1
                         if owned is not None and owned[0] is body:
@@ -294,6 +311,24 @@ class World:
                 self.violation('C11', 'io-queue',
                                'io executor holds %d tasks > max_io_queue_size=%d'
                                % (ex.occ, cfg['max_io_queue_size']))
+            # C11: pending destination writes <= max_io_queue_size chunks of
+            # io_chunksize, in bytes (whatever shape the task's data has)
+            nbytes = _payload_size((getattr(task, '_main_kwargs', None) or {}).get('data'))
+            if nbytes:
+                if nbytes > cfg['io_chunksize']:
+                    self.violation('C11', 'io-chunk',
+                                   'one pending destination write (%s) carries %d bytes > '
+                                   'io_chunksize=%d' % (type(task).__name__, nbytes,
+                                                        cfg['io_chunksize']))
+                ex.pending_bytes += nbytes
+                lim = cfg['max_io_queue_size'] * cfg['io_chunksize']
+                if ex.pending_bytes > lim:
+                    self.violation('C11', 'io-bytes',
+                                   '%d bytes of destination writes are pending > '
+                                   'max_io_queue_size x io_chunksize = %d'
+                                   % (ex.pending_bytes, lim))
+            self._sample_state()
+            return nbytes
         elif ex.role == 'request':
             bound = cfg['max_request_queue_size'] + self.tag_allowance
             if ex.occ > bound:
@@ -493,6 +528,9 @@ class World:
                                        executor_cls=self.make_executor_cls())
         self._wrap_controller()
         self._observe_tags()
+        self.sibling = None
+        if sc.get('knobs', {}).get('sibling'):
+            self.sibling = TransferManager(self.s3, TransferConfig_like(cfg), osutil)
         script = sc.get('driver') or self.default_script()
         use_with = any(a[0] in ('with_raise', 'use_with') for a in script)
         try:
@@ -532,6 +570,15 @@ class World:
 
     def default_script(self):
         n = len(self.scenario['transfers'])
+        sib = self.scenario.get('knobs', {}).get('sibling')
+        if sib == 'before':
+            return [('sibling_shutdown',)] + [('submit', i) for i in range(n)] + \
+                   [('result', i) for i in range(n)] + [('shutdown',)]
+        if sib == 'during':
+            k = self.scenario['knobs'].get('sibling_at', 0) % (n + 1)
+            return [('submit', i) for i in range(k)] + [('sibling_shutdown',)] + \
+                   [('submit', i) for i in range(k, n)] + \
+                   [('result', i) for i in range(n)] + [('shutdown',)]
         return [('submit', i) for i in range(n)] + \
                [('result', i) for i in range(n)] + [('shutdown',)]
 
@@ -625,6 +672,13 @@ class World:
                     'with', m, 'CancelledError' if kind == 'kbi' else 'FatalError',
                     a[3] if len(a) > 3 else True, a[4] if len(a) > 4 else None)
                 raise exc
+            elif op == 'sibling_shutdown':
+                # another manager that shares the client (and nothing else) goes
+                # away: this manager's transfers must not notice
+                if self.sibling is not None:
+                    self.sibling.shutdown()
+                    self.sibling = None
+                    self.probe('sibling-manager-shut-down')
             elif op == 'fresh':
                 t = self._prepare_transfer(a[1])
                 t['fresh'] = True
@@ -858,8 +912,16 @@ class _RecordingWorkQueue(simstd.simqueue.SimpleQueue):
             task = getattr(getattr(item, 'fn', None), '_task', None)
             if type(task).__name__ in ('IOWriteTask', 'IOStreamingWriteTask'):
                 mk = task._main_kwargs
-                self._w.io_submits.setdefault(id(mk['fileobj']), []).append(
-                    (mk.get('offset'), len(mk['data'])))
+                data = mk['data']
+                # (a task may carry one block or a run of blocks: the order
+                # claim is about the bytes, not about the task shape)
+                blocks = list(data) if isinstance(data, (list, tuple)) else [data]
+                off = mk.get('offset')
+                for b in blocks:
+                    self._w.io_submits.setdefault(id(mk['fileobj']), []).append(
+                        (off, len(b)))
+                    if off is not None:
+                        off += len(b)
         return super().put(item, block, timeout)
 
 
